@@ -24,6 +24,9 @@ const preludeFixed = `(set-option :produce-models true)
 (define-fun elem ((a Int) (i Int)) Int (- (- (+ (* a 288230376151711744) i)) 1))
 (define-fun elem_arr ((r Int)) Int (ite (< r 0) (div (- (- r) 1) 288230376151711744) 0))
 (define-fun elem_idx ((r Int)) Int (ite (< r 0) (mod (- (- r) 1) 288230376151711744) 0))
+(declare-fun uf_mul (Int Int) Int)
+(declare-fun uf_div (Int Int) Int)
+(declare-fun uf_rem (Int Int) Int)
 (declare-fun uf_and (Int Int) Int)
 (declare-fun uf_or (Int Int) Int)
 (declare-fun uf_xor (Int Int) Int)
